@@ -41,7 +41,7 @@ class Baton:
 
     STALL_BUDGETS = (4, 15, 60, 250, 1000)
 
-    def __init__(self, decider, p_preempt, stats, prefixes, max_switches=4000, hot_weight=1, stall_gap=0):
+    def __init__(self, decider, p_preempt, stats, prefixes, max_switches=4000, hot_weight=1, stall_gap=0, stall_after_release=False):
         self.decider = decider
         self.p = p_preempt
         self.stats = stats
@@ -75,6 +75,8 @@ class Baton:
         self.burst_tid = None
         self.burst = 0
         self.stall_cd = self.decider.decide(self.stall_gap) if self.stall_gap else 0
+        self.after_release = None  # thread that has just released a simulated lock: its next line is a favoured stall point
+        self.stall_after_release = bool(stall_after_release)
 
     # -- bookkeeping
     def _runnable(self, exclude=None):
@@ -192,7 +194,7 @@ class Baton:
         if event == 'line':
             self.lines += 1
             self.hot_lines += 1
-            if self.stall_gap and self._stall_step(frame, True):
+            if (self.stall_gap or self.stalled or self.after_release is not None) and self._stall_step(frame, True):
                 return self._local_hot
             self.countdown -= self.hot_weight
             if self.countdown < 0:
@@ -222,13 +224,20 @@ class Baton:
                     self._switch_to(me, woke, 'wake')
                     return True
         stall = False
-        if self.burst_tid == cur:
+        if self.after_release == cur:
+            # the line after a lock was released: what the lock protected can now be changed by others before this thread reads it
+            self.after_release = None
+            if self.decider.decide(2):
+                stall = True
+        if stall:
+            pass
+        elif self.burst_tid == cur:
             if self.burst <= 0:
                 self.burst_tid = None
                 stall = True
             else:
                 self.burst -= 1
-        elif hot:
+        elif hot and self.stall_gap:
             self.stall_cd -= 1
             if self.stall_cd < 0:
                 self.stall_cd = self.decider.decide(self.stall_gap)
@@ -245,7 +254,7 @@ class Baton:
     def _local(self, frame, event, arg):
         if event == 'line':
             self.lines += 1
-            if self.stall_gap and (self.stalled or self.burst_tid is not None) and self._stall_step(frame, False):
+            if (self.stalled or self.burst_tid is not None or self.after_release is not None) and self._stall_step(frame, False):
                 return self._local
             self.countdown -= 1
             if self.countdown < 0:
@@ -287,6 +296,8 @@ class SimRLock:
     def release(self):
         self.count -= 1
         if self.count <= 0:
+            if self.baton.stall_after_release:
+                self.baton.after_release = self.owner
             self.owner = None
             self.count = 0
 
